@@ -193,6 +193,17 @@ def run(case, ctx):
     else:
         plan = fault_plan(case["faults"]) if case["faults"] else None
         r = M.Rig(m, plan=plan, timeout=0.5, n_tries=5)
+    if not real and (case["seed_mem"] + case["buf"]) % 4 == 0:
+        # the machine does not answer when the controller first talks to it;
+        # the application catches the error and carries on
+        user_plan = r.net.plan
+        r.net.plan = lambda net, sock, data, n: [("lost",)]
+        try:
+            r.mc.read(0x60000000, 4, 0, 0, 0)
+            raise Violation("oracle", "silent machine answered")
+        except r.sc.SCPError:
+            ctx.hit("first_contact_failed")
+        r.net.plan = user_plan
     try:
         return run_ops(case, ctx, m, r, plan, real)
     finally:
